@@ -68,4 +68,52 @@ MonoSpec(fn) ==
     [] fn = "tempo.detection" -> Same("leq", 3)
     [] fn = "alignment.percentage_correct" -> Same("leq", 1)
     [] fn = "nested" -> Same("leq", 1)                                                    \* a = stricter criterion, b = nested looser one
+
+(* ---- C02: metric(x, copy of x) is optimal; "any" = no claim for that position ------------- *)
+Rep(v, n) == [i \in 1..n |-> v]
+PerfectSpec(fn) ==
+  CASE fn = "beat.f_measure" -> Rep("is1", 1)
+    [] fn = "beat.cemgil" -> Rep("is1", 2)
+    [] fn = "beat.goto" -> Rep("is1", 1)
+    [] fn = "beat.p_score" -> Rep("is1", 1)
+    [] fn = "beat.continuity" -> Rep("is1", 4)
+    [] fn = "beat.information_gain" -> Rep("is1", 1)
+    [] fn = "beat.evaluate" -> Rep("is1", 10)
+    [] fn = "onset.f_measure" -> Rep("is1", 3)
+    [] fn = "onset.evaluate" -> Rep("is1", 3)
+    [] fn = "segment.detection" -> Rep("is1", 3)
+    [] fn = "segment.deviation" -> Rep("is0", 2)
+    [] fn = "segment.pairwise" -> Rep("is1", 3)
+    [] fn = "segment.rand_index" -> Rep("is1", 1)
+    [] fn = "segment.ari" -> Rep("is1", 1)
+    [] fn = "segment.mutual_information" -> <<"any", "is1", "is1">>
+    [] fn = "segment.nce" -> Rep("is1", 3)
+    [] fn = "segment.vmeasure" -> Rep("is1", 3)
+    [] fn = "segment.evaluate" -> Rep("is1", 6) \o Rep("is0", 2) \o Rep("is1", 5) \o <<"any">> \o Rep("is1", 8)
+    [] fn = "chord.evaluate" -> Rep("is1", 15)
+    [] fn = "melody.evaluate" -> <<"is1", "is0", "is1", "is1", "is1">>
+    [] fn = "multipitch.metrics" -> <<"is1", "is1", "is1", "is0", "is0", "is0", "is0", "is1", "is1", "is1", "is0", "is0", "is0", "is0">>
+    [] fn = "multipitch.evaluate" -> <<"is1", "is1", "is1", "is0", "is0", "is0", "is0", "is1", "is1", "is1", "is0", "is0", "is0", "is0">>
+    [] fn = "transcription.precision_recall_f1_overlap" -> Rep("is1", 4)
+    [] fn = "transcription.onset_precision_recall_f1" -> Rep("is1", 3)
+    [] fn = "transcription.offset_precision_recall_f1" -> Rep("is1", 3)
+    [] fn = "transcription.evaluate" -> Rep("is1", 14)
+    [] fn = "transcription_velocity.precision_recall_f1_overlap" -> Rep("is1", 4)
+    [] fn = "transcription_velocity.evaluate" -> Rep("is1", 8)
+    [] fn = "tempo.detection" -> Rep("is1", 3)
+    [] fn = "key.weighted_score" -> Rep("is1", 1)
+    [] fn = "pattern.standard_FPR" -> Rep("is1", 3)
+    [] fn = "pattern.establishment_FPR" -> Rep("is1", 3)
+    [] fn = "pattern.occurrence_FPR" -> Rep("is1", 3)
+    [] fn = "pattern.three_layer_FPR" -> Rep("is1", 3)
+    [] fn = "pattern.first_n_three_layer_P" -> Rep("is1", 1)
+    [] fn = "pattern.first_n_target_proportion_R" -> Rep("is1", 1)
+    [] fn = "pattern.evaluate" -> Rep("is1", 17)
+    [] fn = "hierarchy.tmeasure" -> Rep("is1", 3)
+    [] fn = "hierarchy.lmeasure" -> Rep("is1", 3)
+    [] fn = "hierarchy.evaluate" -> Rep("is1", 9)
+    [] fn = "alignment.absolute_error" -> Rep("is0", 2)
+    [] fn = "alignment.percentage_correct" -> Rep("is1", 1)
+    [] fn = "alignment.percentage_correct_segments" -> Rep("is1", 1)
+    [] fn = "alignment.evaluate" -> <<"is1", "is0", "is0", "is1", "any">>
 =============================================================================
